@@ -96,12 +96,6 @@ def finish(rep: Report, seed=0):
     """Write evidence, print the verdict lines, return the exit code."""
     from .model import AnalysisError
 
-    for label, found, floor in rep.floors:
-        if found < floor:
-            raise AnalysisError(
-                f"{rep.prop}: instance count for '{label}' fell to {found} (< floor {floor}); "
-                "the rule no longer sees what was confirmed by hand"
-            )
     known = [k for k in load_known() if k.get("property") == rep.prop and k.get("status") == "open"]
     violations = [o for o in rep.obligations if o.status == VIOLATED]
     listed, unlisted = [], []
@@ -117,6 +111,14 @@ def finish(rep: Report, seed=0):
                 break
         (listed if hit else unlisted).append((o, hit))
 
+    if not unlisted:
+        # floors only matter when nothing was reported: a rule that found a violation has not gone blind
+        for label, found, floor in rep.floors:
+            if found < floor:
+                raise AnalysisError(
+                    f"{rep.prop}: instance count for '{label}' fell to {found} (< floor {floor}); "
+                    "the rule no longer sees what was confirmed by hand"
+                )
     EVIDENCE.mkdir(parents=True, exist_ok=True)
     replay_paths = []
     if unlisted:
